@@ -216,6 +216,7 @@ def main():
     ap.add_argument('--seed', type=int, default=1)
     ap.add_argument('--lines', help='restrict to line range a-b (with a single --files)')
     ap.add_argument('--list', action='store_true')
+    ap.add_argument('--ids', help='file with one mutant id per line: run only those')
     a = ap.parse_args()
     files = a.files.split(',') if a.files else FILES
     muts = gen_mutants(files)
@@ -230,6 +231,9 @@ def main():
             except Exception:
                 pass
     muts = [m for m in muts if m['id'] not in done]
+    if a.ids:
+        want = set(l.strip() for l in open(a.ids) if l.strip())
+        muts = [m for m in muts if m['id'] in want]
     if a.sample and len(muts) > a.sample:
         random.Random(a.seed).shuffle(muts)
         muts = muts[:a.sample]
